@@ -1,11 +1,14 @@
 #!/bin/sh
 # try_mutant.sh <mutant dir> <property> [tier]  — applies patch.diff to /repo, runs the property's check, reverts.
 set -u
+# MUT_REPO / MUT_VERIF (see tools/mksandbox.sh) redirect it to a scratch worktree and a copy of /verif.
 M=$(cd "$1" && pwd); P=$2; T=${3:-quick}
-cd /verif
-[ -z "$(git -C /repo status --porcelain)" ] || { echo "/repo not clean"; exit 2; }
-git -C /repo apply "$M/patch.diff" || { echo "patch does not apply"; exit 2; }
-mkdir -p /tmp/mutreg
-VERIF_REGDIR=/tmp/mutreg ./run.sh "$P" "$T" > /tmp/mut.out 2>&1; rc=$?
-git -C /repo checkout -- .
-echo "RESULT $M $P $T exit=$rc: $(grep -c '^VIOLATION' /tmp/mut.out) violation lines; $(grep -v '^VIOLATION' /tmp/mut.out | head -2 | cut -c1-300 | tr '\n' '|')"
+R=${MUT_REPO:-/repo}; V=${MUT_VERIF:-/verif}
+cd "$V"
+[ -z "$(git -C "$R" status --porcelain)" ] || { echo "$R not clean"; exit 2; }
+git -C "$R" apply "$M/patch.diff" || { echo "patch does not apply"; exit 2; }
+O=$(mktemp /tmp/mut.XXXXXX); G=$(mktemp -d /tmp/mutreg.XXXXXX)
+VERIF_REGDIR=$G ./run.sh "$P" "$T" > "$O" 2>&1; rc=$?
+git -C "$R" checkout -- .
+echo "RESULT $M $P $T exit=$rc: $(grep -ac '^VIOLATION' "$O") violation lines; $(grep -av '^VIOLATION' "$O" | head -2 | cut -c1-300 | tr '\n' '|')"
+rm -rf "$O" "$G"
